@@ -1,5 +1,6 @@
 import TmVerif.Model.LRProto
 import TmVerif.Model.LRCheck
+import TmVerif.Model.Pack
 namespace TmVerif.DriverC05
 open TmVerif.Proto TmVerif.LR TmVerif.LRCheck
 
@@ -11,7 +12,23 @@ def sideFailure (t : Tables) : Option String :=
   else if !gotoClosed t (mkPreds t) then some "gotoClosed"
   else none
 
-/-- `opt <tables with opt> <defaultReduce>` → `ok` or the first differing cell (or the side
+/-- `pos,val,pos,val;…` (lines), bases, table, check -/
+def parsePack (lines idx table check : String) :
+    Option (List Pack.Line × List Int × Array Int × Array Int) := do
+  let ls ← (lines.splitOn ";").mapM fun l => do
+    let xs ← parseInts l
+    let rec pairs : List Int → Option Pack.Line
+      | p :: v :: rest => do
+        if p < 0 then none
+        let r ← pairs rest
+        pure ((p.toNat, v) :: r)
+      | [] => some []
+      | _ => none
+    pairs xs
+  pure (ls, ← parseInts idx, ← parseArr table, ← parseArr check)
+
+/-- `pack <lines> <bases> <table> <check>` → `ok` or the first cell that does not read back.
+`opt <tables with opt> <defaultReduce>` → `ok` or the first differing cell (or the side
 condition of the run-level theorems that the tables violate). -/
 def handle (args : List String) : Option String :=
   match args with
@@ -26,6 +43,14 @@ def handle (args : List String) : Option String :=
         | some w => some s!"hypothesis-fails {w}"
       else some s!"mismatch {(firstBadCell t dr).getD "?"}"
     | _ => none
+  | ["pack", lines, idx, table, check] => do
+    let (ls, idx, table, check) ← parsePack lines idx table check
+    if Pack.packOk ls idx table check then some "ok"
+    else some s!"mismatch {Pack.firstBad ls idx table check}"
+  | ["judge", _, "::", "pack", lines, idx, table, check] => do
+    let (ls, idx, table, check) ← parsePack lines idx table check
+    if Pack.packOk ls idx table check then some "holds"
+    else some s!"violates: {Pack.firstBad ls idx table check}"
   | "judge" :: _ :: "::" :: "opt" :: rest => do
     let (t, rest) ← parseTables rest
     match rest with
